@@ -1,6 +1,6 @@
 #include "recl_common.hpp"
 using namespace rh;
-namespace {
+namespace hx_recl_a {
 using hp_s1 = rc::HP_S<1, 0, 0>; using hp_s2 = rc::HP_S<2, 0, 0>; using hp_s3 = rc::HP_S<3, 2, 1>; using hp_s5 = rc::HP_S<5, 0, 1>;
 using hp_d1 = rc::HP_D<1, 0, 0>; using hp_d2 = rc::HP_D<2, 2, 1>;
 using he_s1 = rc::HE_S<1, 0, 0>; using he_s2 = rc::HE_S<2, 0, 0>; using he_s3 = rc::HE_S<3, 2, 1>; using he_s5 = rc::HE_S<5, 0, 1>;
